@@ -67,6 +67,9 @@ pub enum Native {
 	MutRefsVia(u8, usize, u8),
 	/// `RefLockCollection::from(&data)` over the shared `[Vec<RwLock>; 2]` listed against its address order
 	VecsFromRef,
+	/// a Boxed collection that OWNS that shared `[Vec<RwLock>; 2]` data (so it must be the first spec built in its
+	/// world; the other `Vecs*` shapes then borrow the data from its `child()`): 0 = `new`, 1 = `From`, 2 = `try_new`
+	VecsOwnedBoxed(u8),
 	/// `[&RwLock; 3]` through the `unsafe` `new_unchecked` constructors (duplicate-free by construction here)
 	Arr3Unchecked(Kind, [usize; 3]),
 	/// the shared descending owned unit itself, and Boxed::new_ref / Ref::new / Retrying::new_ref over a reference to it
@@ -216,13 +219,14 @@ pub struct World<'w> {
 	pub next_unit: Cell<u32>,
 	/// shared owned data for the Vecs* native shapes: ([hi_vec, lo_vec], leaf ids of hi, leaf ids of lo)
 	pub vecs: RefCell<Option<(&'w [Vec<R>; 2], Vec<u32>, Vec<u32>)>>,
+	pub vecs_owner: RefCell<Option<&'w BoxedLockCollection<[Vec<R>; 2]>>>,
 	/// shared owned unit whose `n` `&mut` members are listed in descending address order: (unit, leaves as listed)
 	pub owned_desc: RefCell<Option<(usize, &'w OwnedLockCollection<Vec<&'w mut R>>, Vec<u32>)>>,
 }
 
 impl<'w> World<'w> {
 	pub fn new(arena: &'w Arena, store: &'w Store) -> Self {
-		World { arena, store, next_id: Cell::new(ARENA_TOTAL), is_rw: RefCell::new(Arena::is_rw_table()), unit: RefCell::new(Arena::unit_table()), next_unit: Cell::new(100), vecs: RefCell::new(None), owned_desc: RefCell::new(None) }
+		World { arena, store, next_id: Cell::new(ARENA_TOTAL), is_rw: RefCell::new(Arena::is_rw_table()), unit: RefCell::new(Arena::unit_table()), next_unit: Cell::new(100), vecs: RefCell::new(None), vecs_owner: RefCell::new(None), owned_desc: RefCell::new(None) }
 	}
 	fn fresh(&self, rw: bool, unit: u32) -> u32 {
 		let id = self.next_id.get();
@@ -327,6 +331,30 @@ impl<'w> World<'w> {
 		if let Some(v) = self.vecs.borrow().as_ref() {
 			return (v.0, v.1.clone(), v.2.clone());
 		}
+		let (arr, hi_ids, lo_ids) = self.make_vecs();
+		let data: &'w [Vec<R>; 2] = self.store.stash(arr);
+		*self.vecs.borrow_mut() = Some((data, hi_ids.clone(), lo_ids.clone()));
+		(data, hi_ids, lo_ids)
+	}
+	/// The same data, owned by a Boxed collection built with the given constructor.
+	fn shared_vecs_owned(&self, via: u8) -> (&'w BoxedLockCollection<[Vec<R>; 2]>, Vec<u32>, Vec<u32>) {
+		if let Some(b) = *self.vecs_owner.borrow() {
+			let v = self.vecs.borrow();
+			let v = v.as_ref().unwrap();
+			return (b, v.1.clone(), v.2.clone());
+		}
+		assert!(self.vecs.borrow().is_none(), "harness: VecsOwnedBoxed must be the first Vecs* shape built in its world");
+		let (arr, hi_ids, lo_ids) = self.make_vecs();
+		let b: &'w BoxedLockCollection<[Vec<R>; 2]> = self.store.stash(match via {
+			0 => BoxedLockCollection::new(arr),
+			1 => BoxedLockCollection::from(arr),
+			_ => BoxedLockCollection::try_new(arr).expect("owned data has no duplicates"),
+		});
+		*self.vecs_owner.borrow_mut() = Some(b);
+		*self.vecs.borrow_mut() = Some((b.child(), hi_ids.clone(), lo_ids.clone()));
+		(b, hi_ids, lo_ids)
+	}
+	fn make_vecs(&self) -> ([Vec<R>; 2], Vec<u32>, Vec<u32>) {
 		// both Vecs have the same length, so the shape does not depend on which allocation ends up higher
 		let va: Vec<R> = vec![R::new(Payload::new(0)), R::new(Payload::new(0))];
 		let vb: Vec<R> = vec![R::new(Payload::new(0)), R::new(Payload::new(0))];
@@ -347,9 +375,7 @@ impl<'w> World<'w> {
 				ids.push(id);
 			}
 		}
-		let data: &'w [Vec<R>; 2] = self.store.stash([hi, lo]);
-		*self.vecs.borrow_mut() = Some((data, hi_ids.clone(), lo_ids.clone()));
-		(data, hi_ids, lo_ids)
+		([hi, lo], hi_ids, lo_ids)
 	}
 
 	/// The world's shared descending owned unit (one size per world).
@@ -648,6 +674,11 @@ impl<'w> World<'w> {
 					let (data, hi, lo) = self.shared_vecs();
 					leaves = hi.iter().chain(lo.iter()).copied().collect();
 					st.stash(RefLockCollection::from(data))
+				}
+				Native::VecsOwnedBoxed(via) => {
+					let (b, hi, lo) = self.shared_vecs_owned(*via);
+					leaves = hi.iter().chain(lo.iter()).copied().collect();
+					b
 				}
 				Native::Arr3Unchecked(k, ix) => {
 					assert!(ix[0] != ix[1] && ix[1] != ix[2] && ix[0] != ix[2], "harness: new_unchecked needs duplicate-free input");
